@@ -40,7 +40,7 @@ theorem c30_consistent (f : File) (r : Req) :
         have : serve f r = { status := 400 } := by
           unfold early304 at he
           unfold serve serveWith
-          simp only [he, hh, hw, Bool.false_eq_true, ↓reduceIte]
+          simp [he, hh, hw]
         simp [this]
       | some ws =>
         obtain ⟨seekable, pos0, hp0, hs⟩ := serve_get f r he hh ws hw
@@ -86,15 +86,15 @@ theorem c30_consistent (f : File) (r : Req) :
                 omega
               · rw [readAt_length hin.1 hin.2.1 hin.2.2]; omega
     · -- HEAD
-      have hs : serve f r = match planContent f r with
-          | .final resp => resp
-          | .send st cr _ n =>
-            { status := st, contentRange := cr, contentLength := some n, lastModified := f.modSec != 0,
-              etag := f.etag } := by
-        unfold early304 at he
-        unfold serve serveWith
-        simp only [he, hh, Bool.false_eq_true, ↓reduceIte]
-        cases planContent f r <;> rfl
+      cases hw : parseRangeWL r.range with
+      | none =>
+        have : serve f r = { status := 400 } := by
+          unfold early304 at he
+          unfold serve serveWith
+          simp [he, hh, hw]
+        simp [this]
+      | some ws =>
+      have hs := serve_head f r he hh ws hw
       rcases plan_cases f r with ⟨resp, hpl, hb, hst⟩ | hpl | ⟨ra, hdr, rs, hpl, hpre, hpr, hhd⟩
       · rw [hpl] at hs
         simp only [] at hs
@@ -285,7 +285,7 @@ theorem c30_416_if (f : File) (r : Req) (h1 : r.ifRange = []) (h2 : r.ifNoneMatc
   have hno := parseRange_noOverlap_iff.mpr ⟨hne, hp, hall, hex⟩
   have hpre : checkPreconditions f r = .go r.range := pre_none h1 h2 h3 h4 h5
   have hplan : planContent f r =
-      .final (⟨416, .unsat f.content.length, none, f.modSec != 0, f.etag, []⟩ : Resp) := by
+      .final (⟨416, .unsat f.content.length, none, hasMod f, f.etag, []⟩ : Resp) := by
     unfold planContent
     simp only [hpre, hno]
     have : ((f.content.length : Int) == 0) = false := by rw [beq_eq_false_iff_ne]; omega
